@@ -110,7 +110,7 @@ func TestVerifC25Cluster(t *testing.T) {
 					resp, err := m.API.Query(ctx, &pilosa.QueryRequest{Index: index, Query: fmt.Sprintf("Row(f=%d)", rid)})
 					r.Eval(1)
 					if err != nil {
-						r.Fail("cluster:read-error", id, fmt.Sprintf("%s: node %d Row(f=%d): %v", stage, k, rid, err), wit())
+						r.FailOrUndecided("cluster:read-error", id, fmt.Sprintf("%s: node %d Row(f=%d): %v", stage, k, rid, err), wit())
 						return false
 					}
 					got := resp.Results[0].(*pilosa.Row).Attrs
@@ -119,14 +119,14 @@ func TestVerifC25Cluster(t *testing.T) {
 						continue
 					}
 					if !reflect.DeepEqual(got, want) {
-						r.Fail("cluster:row-attrs-differ:"+strings.SplitN(stage, ":", 2)[0], id, fmt.Sprintf("%s: node %d row %d attrs {%s}, model {%s}", stage, k, rid, c25cRender(got), c25cRender(want)), wit())
+						r.FailOrUndecided("cluster:row-attrs-differ:"+strings.SplitN(stage, ":", 2)[0], id, fmt.Sprintf("%s: node %d row %d attrs {%s}, model {%s}", stage, k, rid, c25cRender(got), c25cRender(want)), wit())
 						return false
 					}
 				}
 				resp, err := m.API.Query(ctx, &pilosa.QueryRequest{Index: index, Query: "Row(f=7)", ColumnAttrs: true})
 				r.Eval(1)
 				if err != nil {
-					r.Fail("cluster:read-error", id, fmt.Sprintf("%s: node %d column attrs: %v", stage, k, err), wit())
+					r.FailOrUndecided("cluster:read-error", id, fmt.Sprintf("%s: node %d column attrs: %v", stage, k, err), wit())
 					return false
 				}
 				gotC := map[uint64]map[string]interface{}{}
@@ -140,7 +140,7 @@ func TestVerifC25Cluster(t *testing.T) {
 						continue
 					}
 					if !reflect.DeepEqual(gotC[cid], colM[cid]) {
-						r.Fail("cluster:column-attrs-differ:"+strings.SplitN(stage, ":", 2)[0], id, fmt.Sprintf("%s: node %d column %d attrs {%s}, model {%s}", stage, k, cid, c25cRender(gotC[cid]), c25cRender(colM[cid])), wit())
+						r.FailOrUndecided("cluster:column-attrs-differ:"+strings.SplitN(stage, ":", 2)[0], id, fmt.Sprintf("%s: node %d column %d attrs {%s}, model {%s}", stage, k, cid, c25cRender(gotC[cid]), c25cRender(colM[cid])), wit())
 						return false
 					}
 				}
@@ -179,7 +179,7 @@ func TestVerifC25Cluster(t *testing.T) {
 			ops = append(ops, fmt.Sprintf("node %d: %s", via, pq))
 			r.InFlightDetail(id, wit())
 			if _, err := c[via].API.Query(ctx, &pilosa.QueryRequest{Index: index, Query: pq}); err != nil {
-				r.Fail("cluster:write-error", id, pq+": "+err.Error(), wit())
+				r.FailOrUndecided("cluster:write-error", id, pq+": "+err.Error(), wit())
 				return
 			}
 			if rng.Chance(1, 2) {
@@ -197,7 +197,7 @@ func TestVerifC25Cluster(t *testing.T) {
 			fld := m.Server.Holder().Field(index, "f")
 			idx := m.Server.Holder().Index(index)
 			if fld == nil || idx == nil {
-				r.Fail("cluster:schema-missing", id, fmt.Sprintf("node %d lacks the index or field", k), wit())
+				r.FailOrUndecided("cluster:schema-missing", id, fmt.Sprintf("node %d lacks the index or field", k), wit())
 				return
 			}
 			own := uint64(300 + 100*k + rng.Intn(3)) // a distinct id (and block) per node
@@ -236,7 +236,7 @@ func TestVerifC25Cluster(t *testing.T) {
 			for _, k := range rng.Perm(3) {
 				ops = append(ops, fmt.Sprintf("SyncData on node %d", k))
 				if err := c[k].Server.SyncData(); err != nil {
-					r.Fail("cluster:sync-error", id, fmt.Sprintf("SyncData on node %d: %v", k, err), wit())
+					r.FailOrUndecided("cluster:sync-error", id, fmt.Sprintf("SyncData on node %d: %v", k, err), wit())
 					return
 				}
 			}
@@ -254,7 +254,7 @@ func TestVerifC25Cluster(t *testing.T) {
 				got, err := m.Server.Holder().Field(index, "f").RowAttrStore().Attrs(rid)
 				r.Eval(1)
 				if err != nil || !reflect.DeepEqual(got, want) {
-					r.Fail("cluster:row-attrs-differ:sync", id, fmt.Sprintf("after the passes node %d row %d attrs {%s} (%v), want {%s}", k, rid, c25cRender(got), err, c25cRender(want)), wit())
+					r.FailOrUndecided("cluster:row-attrs-differ:sync", id, fmt.Sprintf("after the passes node %d row %d attrs {%s} (%v), want {%s}", k, rid, c25cRender(got), err, c25cRender(want)), wit())
 					return
 				}
 			}
